@@ -3798,7 +3798,10 @@ def check_iteration(ctx, tu, f, R):
             entry = {'kind': kind, 'var': lv['id'] if lv else None, 'node': n, 'fn': fn, 'range': r, 'env': env, 'body': body}
             if kind == 'events':
                 ev_loops.append((entry, list(lctx)))
-            # the range / iterator declarations are not part of the body
+            # the range / iterator declarations are not part of the body; a helper called to produce the range runs once,
+            # before the loop, in the context the loop statement is in
+            if r is not None:
+                walk(r, lctx, fn, env, depth)
             if body is not None:
                 walk(body, lctx + [entry], fn, env, depth)
             return
